@@ -29,7 +29,7 @@ use std::time::{Duration, Instant};
 
 pub const META: Meta = Meta {
     level: "exploration",
-    rule: "(a) every combination of record_ttl in {None,10 s,100 s} (+{1 s,48 h} thorough) x expiry given by the peer in {None, 5 s, 50 s, 500 s, 1 s in the past} (+{1 ms, 10 s, 2^33 s} thorough) x record filtering {off,on} x publisher {none,P1,P2} x key neighbourhood {empty routing table, replication factor 1 with 8 routing-table peers so that num_beyond_k > 0}, each on a fresh real Behaviour under the virtual clock; (b) every remaining lifetime in {none, expired 1 s ago, 1 ns, 999 ms, 1 s, 1.5 s, 2^32 s, 2^32+1 s} (+{0, 2^32-1 s, 2^32 s+999 ms, 2^33 s} thorough) x {PutValue request, GetValue response} x publisher {none,P1}. Non-trivial = distinct cases in which a record was kept (a) / distinct cases with an expiry (b).",
+    rule: "(a) every combination of record_ttl in {None,500 ms,1 s,10 s,100 s} (+{1 ms,999 ms,1.5 s,48 h} thorough) x expiry given by the peer in {None, 5 s, 50 s, 500 s, 1 s in the past} (+{1 ms, 10 s, 2^33 s} thorough) x record filtering {off,on} x publisher {none,P1} (+P2 thorough) x key neighbourhood {empty routing table, replication factor 1 with 8 / 30 (+70 thorough) peers offered to the routing table so that num_beyond_k > 0 and the locally allowed lifetime exp_decrease(ttl, num_beyond_k) is halved repeatedly, down to 0 s}, each on a fresh real Behaviour under the virtual clock; (b) every remaining lifetime in {none, expired 1 s ago, 1 ns, 999 ms, 1 s, 1.5 s, 2^32 s, 2^32+1 s} (+{0, 2^32-1 s, 2^32 s+999 ms, 2^33 s} thorough) x {PutValue request, GetValue response} x publisher {none,P1}. Non-trivial = distinct cases in which a record was kept (a) / distinct cases with an expiry (b).",
     explanation: "Complete enumeration (E3) of the stated configurations and inputs against the real Behaviour::record_received (through on_connection_handler_event) and the real record_to_proto (through the codecs); the kept expiry is read from the store / the InboundRequest event, the encoded ttl from the wire bytes.",
     assumptions: &[
         "virtual clock: the expiry given by the peer is an Instant relative to the same frozen now the behaviour reads",
@@ -81,14 +81,38 @@ fn fmt_opt(ns: Option<i64>) -> String {
 
 #[derive(Clone, Debug, Serialize, Deserialize, PartialEq)]
 pub struct CaseA {
-    /// configured record TTL (seconds)
+    /// configured record TTL (milliseconds)
+    #[serde(default)]
+    ttl_ms: Option<u64>,
+    /// legacy replay files: configured record TTL in seconds
+    #[serde(default, skip_serializing)]
     ttl_s: Option<u64>,
     /// expiry the peer gave, relative to now (ns; negative = already expired)
     given_ns: Option<i64>,
     filter: bool,
     /// 0 none, else peer index
     publisher: u8,
+    /// number of peers offered to the routing table (replication factor 1 when > 0), so that
+    /// `num_beyond_k` > 0 and `exp_decrease` shortens the locally allowed lifetime (down to 0)
+    #[serde(default)]
+    crowd: u8,
+    /// legacy replay files: crowd = 8
+    #[serde(default, skip_serializing)]
     crowded: bool,
+}
+impl CaseA {
+    fn ttl(&self) -> Option<Duration> {
+        self.ttl_ms.map(Duration::from_millis).or(self.ttl_s.map(Duration::from_secs))
+    }
+    fn crowd(&self) -> u8 {
+        if self.crowd > 0 {
+            self.crowd
+        } else if self.crowded {
+            8
+        } else {
+            0
+        }
+    }
 }
 
 #[derive(Clone, Debug, Serialize, Deserialize, PartialEq)]
@@ -105,17 +129,18 @@ pub struct ObsA {
 const KEY: &[u8] = b"c42-key";
 
 fn run_a(c: &CaseA) -> ObsA {
-    let mut n = Node::new(&NodeCfg { record_ttl: c.ttl_s.map(Duration::from_secs), filter: c.filter, replication_factor: if c.crowded { Some(1) } else { None }, ..Default::default() });
+    let mut n = Node::new(&NodeCfg { record_ttl: c.ttl(), filter: c.filter, replication_factor: if c.crowd() > 0 { Some(1) } else { None }, ..Default::default() });
     let key = RecordKey::new(&KEY);
     let mut num_between = 0;
-    if c.crowded {
-        // independent count of routing-table peers not farther from the local node than the key
+    if c.crowd() > 0 {
+        // independent count of routing-table peers (those the table accepted) not farther from
+        // the local node than the key
         let lk = KBucketKey::from(crate::drv::local());
         let tk: KBucketKey<RecordKey> = KBucketKey::new(key.clone());
         let dt = lk.distance(&tk);
-        for i in 20..28u8 {
-            n.b.add_address(&peer(i), format!("/ip4/10.1.0.{i}/tcp/1").parse().unwrap());
-            if lk.distance(&KBucketKey::from(peer(i))) <= dt {
+        for i in 20..20 + c.crowd() {
+            let r = n.b.add_address(&peer(i), format!("/ip4/10.1.0.{i}/tcp/1").parse().unwrap());
+            if matches!(r, libp2p_kad::RoutingUpdate::Success) && lk.distance(&KBucketKey::from(peer(i))) <= dt {
                 num_between += 1;
             }
         }
@@ -140,7 +165,7 @@ fn run_a(c: &CaseA) -> ObsA {
 /// the statement, literally
 fn oracle_a(c: &CaseA, o: &ObsA) -> Vec<String> {
     let mut errs = Vec::new();
-    let ttl_ns = c.ttl_s.map(|s| s as i64 * S);
+    let ttl_ns = c.ttl().map(|d| d.as_nanos() as i64);
     let bound = match (c.given_ns, ttl_ns) {
         (Some(g), Some(t)) => Some(g.min(t)),
         (g, t) => g.or(t),
@@ -153,10 +178,10 @@ fn oracle_a(c: &CaseA, o: &ObsA) -> Vec<String> {
             (None, Some(_)) => {
                 // the class of the defect suspected in DESIGN §5: the expiry given by the peer is lost
                 // when no local TTL is configured
-                let sig = if c.ttl_s.is_none() { "recv-expiry-lost:record_ttl=none:given=some".to_string() } else { format!("recv-kept-without-expiry:{cls}") };
-                errs.push(format!("{sig} :: record kept ({via}) WITHOUT expiry although {cls} (filtering {}, publisher {}, crowded {})", c.filter, c.publisher, c.crowded));
+                let sig = if c.ttl().is_none() { "recv-expiry-lost:record_ttl=none:given=some".to_string() } else { format!("recv-kept-without-expiry:{cls}") };
+                errs.push(format!("{sig} :: record kept ({via}) WITHOUT expiry although {cls} (filtering {}, publisher {}, crowd {}, num_between {})", c.filter, c.publisher, c.crowd(), o.num_between));
             }
-            (Some(e), Some(b)) if e > b => errs.push(format!("recv-expiry-extended:{cls} :: record kept ({via}) with expiry now+{} later than min(given, now+ttl) = now+{} (filtering {}, publisher {}, crowded {}, num_between {})", fmt_ns(e), fmt_ns(b), c.filter, c.publisher, c.crowded, o.num_between)),
+            (Some(e), Some(b)) if e > b => errs.push(format!("recv-expiry-extended:{cls} :: record kept ({via}) with expiry now+{} later than min(given, now+ttl) = now+{} (filtering {}, publisher {}, crowd {}, num_between {})", fmt_ns(e), fmt_ns(b), c.filter, c.publisher, c.crowd(), o.num_between)),
             (Some(_), _) => {}
         }
     }
@@ -164,19 +189,25 @@ fn oracle_a(c: &CaseA, o: &ObsA) -> Vec<String> {
 }
 
 fn cases_a(thorough: bool) -> Vec<CaseA> {
-    let mut ttls = vec![None, Some(10), Some(100)];
+    // record TTLs in ms; 500 ms / 1 s (and any TTL in a crowded neighbourhood) make the locally
+    // allowed lifetime `exp_decrease(ttl, num_beyond_k)` truncate to 0 s = "expires now"
+    let mut ttls = vec![None, Some(500), Some(1_000), Some(10_000), Some(100_000)];
     let mut givens = vec![None, Some(5 * S), Some(50 * S), Some(500 * S), Some(-S)];
+    let mut crowds = vec![0u8, 8, 30];
+    let mut publishers = vec![0u8, 1];
     if thorough {
-        ttls.extend([Some(1), Some(48 * 3600)]);
+        ttls.extend([Some(1), Some(999), Some(1_500), Some(48 * 3600 * 1000)]);
         givens.extend([Some(1_000_000), Some(10 * S), Some((1i64 << 33) * S)]);
+        crowds.push(70);
+        publishers.push(2);
     }
     let mut v = Vec::new();
-    for &ttl_s in &ttls {
+    for &ttl_ms in &ttls {
         for &given_ns in &givens {
             for filter in [false, true] {
-                for publisher in [0u8, 1, 2] {
-                    for crowded in [false, true] {
-                        v.push(CaseA { ttl_s, given_ns, filter, publisher, crowded });
+                for &publisher in &publishers {
+                    for &crowd in &crowds {
+                        v.push(CaseA { ttl_ms, ttl_s: None, given_ns, filter, publisher, crowd, crowded: false });
                     }
                 }
             }
@@ -325,7 +356,7 @@ pub fn run(ctx: &Ctx) -> Outcome {
             out.nontrivial(&format!("a{c:?}"));
             out.count("a_kept", 1);
             out.count(if o.stored.is_some() { "a_kept_in_store" } else { "a_offered_to_application" }, 1);
-            let ttl_ns = c.ttl_s.map(|s| s as i64 * S);
+            let ttl_ns = c.ttl().map(|d| d.as_nanos() as i64);
             match (k, c.given_ns, ttl_ns) {
                 (None, _, _) => out.count("a_kept_without_expiry", 1),
                 (Some(e), Some(g), _) if e == g => out.count("a_expiry_is_given", 1),
@@ -335,6 +366,11 @@ pub fn run(ctx: &Ctx) -> Outcome {
             }
         } else {
             out.count("a_not_kept", 1);
+            // a record that is not expired on arrival and is still not kept: the locally allowed
+            // lifetime exp_decrease(ttl, num_beyond_k) truncated to 0 s ("expires now")
+            if c.ttl().is_some() && c.given_ns.map_or(true, |g| g > 0) {
+                out.count(if c.ttl().unwrap() < Duration::from_secs(1) { "a_not_kept_subsecond_local_ttl" } else if c.crowd() > 0 { "a_not_kept_lifetime_decreased_to_zero" } else { "a_not_kept_other" }, 1);
+            }
         }
         if o.put_record_res > 0 {
             out.count("a_answered", 1);
@@ -377,12 +413,12 @@ pub fn run(ctx: &Ctx) -> Outcome {
         }
     }
     // ---- vacuity guards
-    for k in ["a_kept_in_store", "a_offered_to_application", "a_not_kept", "a_expiry_is_given", "a_expiry_is_local_ttl", "a_expiry_decreased_below_local_ttl", "a_answered", "b_ttl_zero", "b_ttl_nonzero"] {
+    for k in ["a_kept_in_store", "a_offered_to_application", "a_not_kept", "a_expiry_is_given", "a_expiry_is_local_ttl", "a_expiry_decreased_below_local_ttl", "a_answered", "a_not_kept_subsecond_local_ttl", "a_not_kept_lifetime_decreased_to_zero", "b_ttl_zero", "b_ttl_nonzero"] {
         if out.get(k) == 0 {
             out.machinery(format!("vacuity: counter {k} is zero"));
         }
     }
-    if out.get("max_num_between") < 2 {
+    if out.get("max_num_between") < 8 {
         out.machinery("vacuity: the crowded configuration never had num_beyond_k > 0");
     }
     out
